@@ -27,6 +27,7 @@ type c02Cfg struct {
 	MaxProofs  int64
 	Sparse     bool // skip heights at which nothing can happen (large windows)
 	Others     []c02Other
+	PayOnce    int64 // > 0: the main file is paid once and expires this many blocks after its start (the chain demands >= 1 day)
 }
 
 // c02Other is a further file of the same owner, posted Delay blocks after the main file (so its proof
@@ -70,7 +71,11 @@ func c02Run(c *chain.Chain, cfg c02Cfg) (out c02Out) {
 		return c02Out{sig: "C02/harness", msg: "init provider failed: " + r.String()}
 	}
 	content := c02Content(cfg.Size)
-	f, r := w.postFile(owner, content, cfg.MaxProofs, 0)
+	var expires int64
+	if cfg.PayOnce > 0 {
+		expires = cfg.S + cfg.PayOnce
+	}
+	f, r := w.postFile(owner, content, cfg.MaxProofs, expires)
 	if !r.OK() {
 		return c02Out{sig: "C02/harness", msg: "post file failed: " + r.String()}
 	}
@@ -254,6 +259,18 @@ func genC02(rt *rapid.T) c02Cfg {
 		cfg.Offsets = append(cfg.Offsets, off)
 		cfg.Gas = append(cfg.Gas, rapid.OneOf(rapid.Just(uint64(0)), rapid.Uint64Range(0, 1<<40)).Draw(rt, fmt.Sprintf("gas%d", i)))
 	}
+	// a file paid once, whose paid period ends while the schedule is still running (large windows only: the chain demands
+	// at least a day, 14400 blocks); an expired file is a file like any other for its provers
+	if cfg.Sparse && rapid.IntRange(0, 2).Draw(rt, "payOnce") == 0 {
+		cfg.W = rapid.SampledFrom([]int64{3600, 7200, 14400}).Draw(rt, "proofWindowPayOnce")
+		cfg.PayOnce = 14400 + rapid.Int64Range(1, 2*cfg.W).Draw(rt, "expiresAfter")
+		for i := range cfg.Offsets {
+			if cfg.Offsets[i] >= cfg.W {
+				cfg.Offsets[i] = cfg.W - 1
+			}
+		}
+		cfg.S = rapid.Int64Range(1, 3*cfg.C).Draw(rt, "startPayOnce")
+	}
 	// further files of the same owner, out of phase with the main one, proven by the same provider in each of their windows
 	for k, n := 0, rapid.SampledFrom([]int{0, 0, 1, 2}).Draw(rt, "otherFiles"); k < n; k++ {
 		o := c02Other{Delay: rapid.Int64Range(1, 2*cfg.W).Draw(rt, fmt.Sprintf("otherDelay%d", k)), Size: rapid.Int64Range(1, 3*cfg.ChunkSize).Draw(rt, fmt.Sprintf("otherSize%d", k))}
@@ -267,13 +284,16 @@ func genC02(rt *rapid.T) c02Cfg {
 
 func TestC02(t *testing.T) {
 	rec := ev.For("C02")
-	rec.Describe("fork-mode schedules: file of 1..6*chunk+rest bytes (all residues incl. exact multiples and 1-byte files), chunk size 1..64 or 1024, proof window W and check window C in [2,24], file start S in [1,3WC], an honest registered provider joining in window 0 or 1 and proving once per file window at generated offsets (0, W-1 and 'same height as a reward block' weighted up) with generated block-gas seeds for the next challenge, run through the window after the last proof; in half of the schedules the same provider also proves, once per window, one or two further files posted 1..2W blocks later (windows out of phase). Oracle: every challenge < ceil(size/chunk); every honest proof (tree built from the property's leaf encoding, cross-checked with utils.BuildTree's root) gets Success=true; after every reward block the prover is still listed and its BurnedContracts is \"0\". Thorough tier additionally enumerates exhaustively W,C in [2,9], S in [1,WC], join window {0,1}, three windows with offsets {0, W/2, W-1}. Non-trivial = a reward block judged the non-young file while the last accepted proof lay in the previous window; distinct = distinct configurations.",
+	rec.Describe("fork-mode schedules: file of 1..6*chunk+rest bytes (all residues incl. exact multiples and 1-byte files), chunk size 1..64 or 1024, proof window W and check window C in [2,24], file start S in [1,3WC], an honest registered provider joining in window 0 or 1 and proving once per file window at generated offsets (0, W-1 and 'same height as a reward block' weighted up) with generated block-gas seeds for the next challenge, run through the window after the last proof; a third of the large-window schedules use a file paid once that expires (>= 14400 blocks after its start) while the schedule is still running; in half of the schedules the same provider also proves, once per window, one or two further files posted 1..2W blocks later (windows out of phase). Oracle: every challenge < ceil(size/chunk); every honest proof (tree built from the property's leaf encoding, cross-checked with utils.BuildTree's root) gets Success=true; after every reward block the prover is still listed and its BurnedContracts is \"0\". Thorough tier additionally enumerates exhaustively W,C in [2,9], S in [1,WC], join window {0,1}, three windows with offsets {0, W/2, W-1}. Non-trivial = a reward block judged the non-young file while the last accepted proof lay in the previous window; distinct = distinct configurations.",
 		"the owner holds a plan bought by a real BuyStorage; CollateralPrice lowered by parameter change so the provider can register")
 	c := chain.New(chain.GenesisOpts{NumAccounts: 3, Balance: sdk.NewCoins(sdk.NewInt64Coin("ujkl", 1_000_000_000_000))})
 	defer c.Close()
 
 	record := func(cfg c02Cfg, o c02Out) {
 		rec.Count(fmt.Sprintf("proofs=%d", o.proofs))
+		if cfg.PayOnce > 0 {
+			rec.Count("pay-once-file-running-past-its-expiry")
+		}
 		if o.others > 0 {
 			rec.Count(fmt.Sprintf("further-files=%d", o.others))
 		}
